@@ -4515,3 +4515,81 @@ func init() {
 	registry["C08"].Meta.Rules[e] = "a filter hands its input back unchanged only when there is nothing to do: a test of len(input) against a constant whose arm returns the input itself is len(input) == 0 (with < 3 the two bytes the writer's LZF encoder produces for a one-byte chunk are returned as the chunk)"
 	registry["C08"].Rules = append(registry["C08"].Rules, func(c *Ctx, r *Result) { filterInputRule(c, r, a, e) })
 }
+
+func init() {
+	// C14: byte lanes of lookup3
+	id := nextRuleID("C14")
+	registry["C14"].Meta.Rules[id] = "every key byte goes into its lane: in jenkinsHash a byte name[i+j] that is shifted is shifted by 8*(j mod 4) bits, in the 12-byte blocks and in the tail (lookup3 reads little-endian words; the 11th tail byte shifted by 8 instead of 16 changes the hash of every name whose length is 11 or 0 modulo 12: another library does not find 'temperature')"
+	registry["C14"].Rules = append(registry["C14"].Rules, func(c *Ctx, r *Result) {
+		fn := c.FnOpt("structures.jenkinsHash")
+		if fn == nil {
+			r.Undec(id, "structures.jenkinsHash#byte-lanes", "", "function not found")
+			return
+		}
+		fb := c.FB(fn)
+		n := 0
+		instrs(fn, func(in ssa.Instruction) {
+			sh, ok := in.(*ssa.BinOp)
+			if !ok || sh.Op != token.SHL {
+				return
+			}
+			s, isK := constInt(sh.Y)
+			if !isK {
+				return
+			}
+			var idx ssa.Value
+			switch x := stripConv(sh.X).(type) {
+			case *ssa.Lookup:
+				idx = x.Index
+			case *ssa.Index:
+				idx = x.Index
+			case *ssa.UnOp:
+				if ia, isIA := x.X.(*ssa.IndexAddr); isIA {
+					idx = ia.Index
+				}
+			}
+			if idx == nil {
+				return
+			}
+			j := fb.lin(idx).C
+			n++
+			r.Check(s == 8*(j%4), id, fmt.Sprintf("structures.jenkinsHash#lane-of-byte-%d-%d", j, n), c.InstrPos(sh), fmt.Sprintf("byte %d of the block is shifted by %d bits", j, s))
+		})
+		if n < 18 {
+			r.Shortfall(c, id, fmt.Sprintf("%s: only %d shifted key bytes in jenkinsHash", id, n))
+		}
+	})
+	// C14: a load replaces the records
+	id2 := nextRuleID("C14")
+	registry["C14"].Meta.Rules[id2] = "loading an index replaces what the handle held: every successful return of WritableBTreeV2.LoadFromFile is preceded by a store to the record sequence (without the reset in the empty-tree branch a handle reloaded from an index that another handle emptied keeps answering with its old records while the header says 0)"
+	registry["C14"].Rules = append(registry["C14"].Rules, func(c *Ctx, r *Result) {
+		fn := c.FnOpt("structures.WritableBTreeV2.LoadFromFile")
+		if fn == nil {
+			r.Undec(id2, "structures.WritableBTreeV2.LoadFromFile#records-replaced", "", "function not found")
+			return
+		}
+		n := 0
+		for _, ret := range returnsOf(fn) {
+			if len(ret.Results) != 1 || !isNilConst(retOperand(ret, 0)) {
+				continue
+			}
+			n++
+			ok := mustPrecede(ret, func(x ssa.Instruction) bool {
+				st, isSt := x.(*ssa.Store)
+				if !isSt {
+					return false
+				}
+				fa, isFA := st.Addr.(*ssa.FieldAddr)
+				if !isFA {
+					return false
+				}
+				f, base := fieldOfAddr(fa)
+				return f != nil && fieldKey(base.Type(), f) == "structures.WritableBTreeV2.records"
+			})
+			r.Check(ok, id2, fmt.Sprintf("structures.WritableBTreeV2.LoadFromFile#records-replaced-%d", n), c.InstrPos(ret), "every path to this successful return assigns the record sequence")
+		}
+		if n < 1 {
+			r.Undec(id2, "structures.WritableBTreeV2.LoadFromFile#records-replaced", c.Pos(fn.Pos()), "no successful return found")
+		}
+	})
+}
